@@ -35,6 +35,11 @@ def legal_c16(T):
     if k == 'tag':
         return legal_c16(T[4])
     if k == 'setof':
+        # members must carry one and the same tag stack: no CHOICE with several alternatives as the element
+        # type, however it is tagged
+        b = U.base_of(T[1])
+        if b[0] == 'choice' and len(b[1]) > 1:
+            return False
         return len(U.outer_tags(T[1])) == 1 and legal_c16(T[1])
     if k == 'seqof':
         return legal_c16(T[1])
